@@ -37,7 +37,7 @@ for pid in ALL:
             'evidence_file': 'evidence/%s.json' % pid,
             'replay_cmd_template': './check %s --replay {path}' % pid,
             'engine': 'vf',
-            'level_claimed': {'category': 'exploration', 'text': c['text'], 'design_ref': c['design']},
+            'level_claimed': {'category': {'C09': 'fault_enumeration'}.get(pid, 'exploration'),  # LEVELS 'text': c['text'], 'design_ref': c['design']},
             'level_note': c['note'],
             'technique': c['technique'],
         })
